@@ -47,10 +47,63 @@ type stashEntry struct {
 var stash []stashEntry
 var closedChans []unsafe.Pointer
 
+// ownChans are the channels made by controlled code during this execution (MakeChan):
+// nothing outside the task world can make an operation on them ready, so a task blocked
+// on them needs no real-time polling. Each entry keeps its channel alive, so the address
+// cannot be reused by another channel while the execution lasts.
+type ownChan struct {
+	p    unsafe.Pointer
+	keep any
+}
+
+var ownChans []ownChan
+
 //go:norace
 func resetChanState() {
 	stash = stash[:0]
 	closedChans = closedChans[:0]
+	for i := range ownChans {
+		ownChans[i] = ownChan{}
+	}
+	ownChans = ownChans[:0]
+}
+
+//go:norace
+func isOwnChan(p unsafe.Pointer) bool {
+	for i := range ownChans {
+		if ownChans[i].p == p {
+			return true
+		}
+	}
+	return false
+}
+
+// MakeChan registers a channel made by controlled code (vinstr wraps every
+// make(chan ...) of the code under test in it) and returns it.
+//
+//go:norace
+func MakeChan[C any](c C) C {
+	if e := cur; e != nil && !e.aborted {
+		RegisterChan(c)
+	}
+	return c
+}
+
+// RegisterChan tells the scheduler that only controlled tasks operate on c.
+//
+//go:norace
+func RegisterChan(c any) {
+	if cur == nil {
+		return
+	}
+	v := reflect.ValueOf(c)
+	if v.Kind() != reflect.Chan || v.IsNil() {
+		return
+	}
+	p := v.UnsafePointer()
+	if !isOwnChan(p) {
+		ownChans = append(ownChans, ownChan{p, c})
+	}
 }
 
 //go:norace
